@@ -236,6 +236,13 @@ class Fn:
             body, n = rw.apply(body, where)
             applied.append(rw.rid)
         body = strip_inner_attrs(body)
+        if re.search(r"\(\s*mut self\b", sig):
+            # R18: Verus rejects `mut self`; bind it to a local instead (same semantics)
+            sig = re.sub(r"\(\s*mut self\b", "(self", sig, count=1)
+            body = re.sub(r"\bself\b", "self_", body)
+            i0 = body.index("{")
+            body = body[:i0 + 1] + "\n        let mut self_ = self;" + body[i0 + 1:]
+            applied.append("R18")
         sig, _ = name_return(sig, self.ret)
         # loop contracts
         if self.loops:
